@@ -668,3 +668,8 @@ _add(
     m("expr-state-raw-export-set", E, "            \"export_options\": sorted(self._export_options) if self._export_options else set(),\n            \"length\"", "            \"export_options\": self._export_options,\n            \"length\"", "C16.7"),
     m("task-state-raw-export-set", T, "            \"export_options\": sorted(self._export_options) if self._export_options else set(),\n        }", "            \"export_options\": self._export_options or set(),\n        }", "C16.7"),
 )
+
+_add(
+    "C18",
+    m("task-hash-drops-export-names", T, "                hash_struct([\"export_options\", sorted(self._export_options)])", "                hash_struct([\"export_options\"])", "C18.9"),
+)
